@@ -1,6 +1,7 @@
 SPECIFICATION Spec
 CONSTANTS
   ShardFailureFix = TRUE
+  DescriptionSortFix = TRUE
   CursorFix = TRUE
   CursorRawDecode = FALSE
   NullMemberFix = TRUE
@@ -8,6 +9,7 @@ CONSTANTS
   TreeLevel = 2
   MaxHitsKeys = 2
   MaxItems = 4
+  MaxWideItems = 3
   MaxHits = 3
   MaxPages = 3
 INVARIANT PropertyHolds
